@@ -7,7 +7,7 @@
    them with the model (V_mismatch).  Depends on Model.v only. *)
 From Coq Require Import String List ZArith NArith Bool.
 From TM Require Import Common.Hex Generated.Consts.
-From TM Require Export C17.Model.
+From TM Require Export C17.Model C17.ValSet.
 Import ListNotations.
 Open Scope Z_scope.
 
@@ -108,7 +108,15 @@ Inductive case :=
    after the panic was delivered in order, it is still running and reported no error *)
 | CRecover (kind : N) (maxsz : nat) (descs : list (Z * nat * Z)) (accepted : list (Z * blob)) (marked : Z)
            (crashed_i reached_i : bool) (nerr_i : Z) (err_has_panic_i running_i send_after_i : bool)
-           (delivered_i : list (Z * blob)) (ndeliv_at_err_i : Z) (others_ok_i : list bool).
+           (delivered_i : list (Z * blob)) (ndeliv_at_err_i : Z) (others_ok_i : list bool)
+(* F85: a validator set with the given voting powers (valid keys and 20-byte addresses; the
+   proposer, when present, is an extra valid entry with that power) handed as BYTES to a decoder
+   of untrusted input.  via: 1 types.ValidatorSetFromProto, 2 types.ValidatorSetFromExistingValidators
+   (light/provider/http), 3 types.EvidenceFromProto (the set inside LightClientAttackEvidence),
+   4 types.BlockFromProto (that evidence inside a block: what addProposalBlockPart and block sync
+   decode).  ok_i: no error; panic_i: the decoder panicked; total_i: TotalVotingPower() of the
+   returned set (via 1, 2) *)
+| CValSet (via : N) (powers : list Z) (proposer : option Z) (ok_i panic_i : bool) (total_i : Z).
 
 (* ------------------------------------------------------------------ helpers *)
 
@@ -335,4 +343,19 @@ Definition check (c : case) : verdict :=
       (* on the marked message's channel exactly the messages accepted before it were delivered *)
       mism (crashed_i || negb reached_i || (marked <? 0) ||
             list_eqb bytes_eqb (on_chan mch del) (on_chan mch (firstn (Z.to_nat marked) acc))) 28 ]
+  | CValSet via powers proposer ok_i panic_i total_i =>
+    let mk := fun p => {| wv_power := p; wv_pubkey_ok := true; wv_addrlen := address_size |} in
+    let vals := map mk powers in
+    let res := match via with
+               | 2%N => valset_from_existing vals
+               | _ => valset_from_proto {| ws_vals := vals; ws_proposer := option_map mk proposer |}
+               end in
+    let exact := match via with 1%N | 2%N => true | _ => false end in
+    first_of [
+      (* untrusted bytes never make a decoder panic *)
+      viol (negb panic_i) 30;
+      mism (match res with
+            | DOk t => negb exact || (ok_i && (total_i =? t))
+            | _ => negb ok_i
+            end) 31 ]
   end.
